@@ -1,11 +1,13 @@
 package interp
 
 import (
+	"encoding/json"
 	"fmt"
 	"go/token"
 	"go/types"
 	"math"
 	"os"
+	"sort"
 	"strconv"
 	"strings"
 	"unicode"
@@ -248,6 +250,17 @@ func init() {
 			px.observes = append(px.observes, obsRec{Name: px.uniqueName("obs:" + str(args[0])), val: args[1]})
 			return nil
 		},
+		"TypeName": func(fr *frame, args []value) value {
+			x, ok := args[0].(iface)
+			if !ok || x.t == nil {
+				return "<nil>"
+			}
+			n := x.t.String()
+			if i := strings.LastIndex(n, "."); i >= 0 {
+				n = n[i+1:]
+			}
+			return n
+		},
 		"NoPanic":   func(fr *frame, args []value) value { fr.i.px.noPanicID = str(args[0]); return nil },
 		"SetUnwind": func(fr *frame, args []value) value { fr.i.px.unwind = cint(fr, args[0], "unwind"); return nil },
 		"SetMaxSteps": func(fr *frame, args []value) value {
@@ -383,6 +396,81 @@ func safeCallString(fr *frame, m *ssa.Function, recv value) (out any) {
 		return s
 	}
 	return "<sym>"
+}
+
+// jsonValue renders a concrete interpreter value of static type t as encoding/json would.
+func jsonValue(sb *strings.Builder, t types.Type, v value) {
+	switch u := t.Underlying().(type) {
+	case *types.Basic:
+		switch x := v.(type) {
+		case string:
+			b, _ := json.Marshal(x)
+			sb.Write(b)
+		case bool, int, int8, int16, int32, int64, uint, uint8, uint16, uint32, uint64, float32, float64:
+			b, _ := json.Marshal(x)
+			sb.Write(b)
+		default:
+			panic(engineError{fmt.Sprintf("json.Marshal of a symbolic or unsupported basic value %T", v)})
+		}
+	case *types.Map:
+		m, _ := v.(*omap)
+		if m == nil {
+			sb.WriteString("null")
+			return
+		}
+		type kv struct {
+			k string
+			v value
+		}
+		var kvs []kv
+		it := &omapIter{m: m}
+		for {
+			e := it.next()
+			if !e[0].(bool) {
+				break
+			}
+			ks, ok := e[1].(string)
+			if !ok {
+				panic(engineError{"json.Marshal of a map with non-string keys"})
+			}
+			kvs = append(kvs, kv{ks, e[2]})
+		}
+		sort.Slice(kvs, func(i, j int) bool { return kvs[i].k < kvs[j].k })
+		sb.WriteByte('{')
+		for i, e := range kvs {
+			if i > 0 {
+				sb.WriteByte(',')
+			}
+			b, _ := json.Marshal(e.k)
+			sb.Write(b)
+			sb.WriteByte(':')
+			jsonValue(sb, u.Elem(), e.v)
+		}
+		sb.WriteByte('}')
+	case *types.Slice:
+		xs, _ := v.([]value)
+		if xs == nil {
+			sb.WriteString("null")
+			return
+		}
+		sb.WriteByte('[')
+		for i, e := range xs {
+			if i > 0 {
+				sb.WriteByte(',')
+			}
+			jsonValue(sb, u.Elem(), e)
+		}
+		sb.WriteByte(']')
+	case *types.Interface:
+		x, ok := v.(iface)
+		if !ok || x.t == nil {
+			sb.WriteString("null")
+			return
+		}
+		jsonValue(sb, x.t, x.v)
+	default:
+		sb.WriteString("{}")
+	}
 }
 
 func sprintf(fr *frame, format string, args []value) string {
@@ -825,7 +913,20 @@ func DefaultIntrinsics() map[string]externalFn {
 	m["errors.Is"] = func(fr *frame, a []value) value { return errorsIs(fr, a[0], a[1]) }
 	m["errors.As"] = func(fr *frame, a []value) value { return errorsAs(fr, a[0], a[1]) }
 	m["encoding/json.Marshal"] = func(fr *frame, a []value) value {
-		return tuple{[]value{byte('{'), byte('}')}, iface{}}
+		// Real JSON for plain concrete data (maps with string keys, slices, strings, numbers, bools,
+		// nested in interfaces) - what the binder's literal patches are made of; structs and
+		// pointers (reflection, field tags) are rendered as {}.
+		var sb strings.Builder
+		if x, ok := a[0].(iface); ok && x.t != nil {
+			jsonValue(&sb, x.t, x.v)
+		} else {
+			sb.WriteString("null")
+		}
+		out := make([]value, sb.Len())
+		for i := 0; i < sb.Len(); i++ {
+			out[i] = sb.String()[i]
+		}
+		return tuple{out, iface{}}
 	}
 	m["runtime/debug.Stack"] = func(fr *frame, a []value) value { return []value{} }
 	m["time.Now"] = func(fr *frame, a []value) value {
